@@ -313,6 +313,9 @@ func (tm *termer) render(v ssa.Value) *Term {
 	case *ssa.UnOp:
 		switch v.Op {
 		case token.MUL: // load
+			if ep := loadEpoch(v); ep != "" {
+				return &Term{Op: "after-store:" + ep, Args: []*Term{tm.deref(v.X)}}
+			}
 			return tm.deref(v.X)
 		case token.NOT:
 			return &Term{Op: "!", Args: tm.args(v.X)}
@@ -607,4 +610,110 @@ func singleFieldStore(al *ssa.Alloc, idx int) ssa.Value {
 		return val
 	}
 	return nil
+}
+
+// loadEpoch distinguishes two loads of the same access path through a pointer parameter when the function
+// assigns that path in between: it returns "" when no store to an overlapping path of the same parameter can
+// precede the load, else a label naming the stores that can (by their order in the function).
+var epochCache = map[*ssa.Function]map[*ssa.UnOp]string{}
+
+func loadEpoch(ld *ssa.UnOp) string {
+	fn := ld.Parent()
+	if fn == nil {
+		return ""
+	}
+	if m, ok := epochCache[fn]; ok {
+		return m[ld]
+	}
+	m := map[*ssa.UnOp]string{}
+	epochCache[fn] = m
+	pathOf := func(v ssa.Value) (ssa.Value, []int) {
+		var path []int
+		root := v
+		for {
+			f, ok := root.(*ssa.FieldAddr)
+			if !ok {
+				break
+			}
+			path = append([]int{f.Field}, path...)
+			root = f.X
+		}
+		return root, path
+	}
+	type acc struct {
+		root ssa.Value
+		path []int
+		blk  *ssa.BasicBlock
+		idx  int
+		st   *ssa.Store
+		ld   *ssa.UnOp
+	}
+	var loads, stores []acc
+	for _, b := range fn.Blocks {
+		for i, in := range b.Instrs {
+			switch x := in.(type) {
+			case *ssa.Store:
+				if root, path := pathOf(x.Addr); len(path) > 0 {
+					stores = append(stores, acc{root, path, b, i, x, nil})
+				}
+			case *ssa.UnOp:
+				if x.Op == token.MUL {
+					if root, path := pathOf(x.X); len(path) > 0 {
+						loads = append(loads, acc{root, path, b, i, nil, x})
+					}
+				}
+			}
+		}
+	}
+	if len(stores) == 0 {
+		return ""
+	}
+	reachMemo := map[*ssa.BasicBlock]map[*ssa.BasicBlock]bool{}
+	reach := func(from, to *ssa.BasicBlock) bool {
+		seen, ok := reachMemo[from]
+		if !ok {
+			seen = map[*ssa.BasicBlock]bool{}
+			work := append([]*ssa.BasicBlock{}, from.Succs...)
+			for len(work) > 0 {
+				b := work[len(work)-1]
+				work = work[:len(work)-1]
+				if seen[b] {
+					continue
+				}
+				seen[b] = true
+				work = append(work, b.Succs...)
+			}
+			reachMemo[from] = seen
+		}
+		return seen[to]
+	}
+	for _, l := range loads {
+		var lines []string
+		nOver := 0
+		for si, s := range stores {
+			if s.root != l.root {
+				continue
+			}
+			over := true
+			for i := 0; i < len(s.path) && i < len(l.path); i++ {
+				if s.path[i] != l.path[i] {
+					over = false
+				}
+			}
+			if !over {
+				continue
+			}
+			nOver++
+			if (s.blk == l.blk && s.idx < l.idx) || reach(s.blk, l.blk) {
+				lines = append(lines, fmt.Sprintf("s%d", si))
+			}
+		}
+		if _, local := l.root.(*ssa.Alloc); local {
+			continue // fields of local structs are named by the termer's own single-store / local rules
+		}
+		if len(lines) > 0 {
+			m[l.ld] = strings.Join(lines, ",")
+		}
+	}
+	return m[ld]
 }
